@@ -8,6 +8,7 @@ import Pyunicorn.Lemmas.RecurrenceRound3
 import Pyunicorn.Lemmas.RecurrenceStruct
 import Pyunicorn.Lemmas.RecurrenceNormCols
 import Pyunicorn.Lemmas.RecurrenceDiag
+import Pyunicorn.Lemmas.RecurrenceTies
 /-!
 # C07 — recurrence matrices are exactly the thresholded distance matrices
 
@@ -703,6 +704,322 @@ a table row with an entry `≥ n` makes the kernel raise -/
 example : snOK 3 [[0, 1, 2], [1, 0, 2], [2, 1, 0]] ∧
     (adaptive 2 1 [[0, 5], [1, 0]] [0, 1]).isNone = true := ⟨⟨rfl, by decide⟩, by decide⟩
 
+
+/-! ### round 5: the adaptive plot for *every* argsort NumPy may return
+
+`distance.argsort(axis=1)` is not stable (introsort / SIMD sorts): among tied distances —
+duplicate state vectors, lattice data — the order of `sorted_neighbors` is unspecified.  The
+statements below hold for every table that *is* an argsort of the distance rows
+(`argsortOK`, an executable test the driver applies to the table NumPy produced); the
+stable argsort of `adaptivePlot` is one instance. -/
+
+/-- `adaptivePlot` is `adaptivePlotWith` on the stable argsort table, which is an argsort -/
+theorem adaptive_plot_is_instance (m : Metric) (emb : List (List V)) (kA : Nat)
+    (order : Option (List Nat)) :
+    adaptivePlot m emb kA order
+      = adaptivePlotWith m emb kA order ((distRP m emb).map argsortV)
+    ∧ argsortOK (distRP m emb) ((distRP m emb).map argsortV) = true :=
+  ⟨rfl, argsortOK_map_argsortV _⟩
+
+/-- **tie independence of the neighbour distances**: along *any* argsort `p` of a distance row
+the distances read `sortV row` — the `k`-th listed neighbour is at the `k`-th smallest
+distance whatever the order among ties, and `p` is a permutation of all states -/
+theorem argsort_distance_profile (row : List V) (p : List Nat) (h : isArgsortRow row p = true) :
+    p.Perm (List.range row.length) ∧ p.map (fun c => row.getD c none) = sortV row :=
+  isArgsortRow_spec row p h
+
+/-- the distance row of state `l` as the kernels fill it -/
+def distRow (m : Metric) (emb : List (List V)) (l : Nat) : List V :=
+  (List.range emb.length).map (rpEntry m emb l)
+
+theorem distRP_getElem (m : Metric) (emb : List (List V)) (l : Nat) (hl : l < (distRP m emb).length) :
+    (distRP m emb)[l] = distRow m emb l := by
+  simp [distRP, tab, distRow]
+
+/-- **`set_adaptive_neighborhood_size(kA, order)` for every argsort table** (object level:
+the table NumPy returned + kernel): for the default order or any caller order that is a list
+of `n` state indices the method returns (no `IndexError`), reports `N` = side of `R`, `R` is
+symmetric, and for `kA ≤ n − 1` every processed state `l`
+* has at least `kA` recurrences,
+* for every `1 ≤ k ≤ kA` is linked to a state at exactly the `k`-th smallest distance of its
+  row (`sortV` — a statement about distance *values*, independent of how ties were ordered),
+* has at least `kA` *other* states as neighbours when no other state ties with it for the
+  first place of its row (no duplicate of the state: every other distance is strictly behind
+  `d(l,l) = 0` in sort order). -/
+theorem adaptive_plot_any_argsort (m : Metric) (emb : List (List V)) (kA : Nat)
+    (order : Option (List Nat)) (sn : List (List Nat))
+    (hsn : argsortOK (distRP m emb) sn = true)
+    (ho : ∀ o, order = some o → o.length = emb.length ∧ ∀ l ∈ o, l < emb.length) :
+    ∃ R : BM, adaptivePlotWith m emb kA order sn
+        = .ok ⟨bmTab emb.length R, emb.length, emb.length⟩
+      ∧ (bmTab emb.length R).length = emb.length
+      ∧ (∀ a b, R a b = R b a)
+      ∧ (kA + 1 ≤ emb.length → ∀ l ∈ order.getD (List.range emb.length),
+          kA ≤ countTrue ((List.range emb.length).map (R l))
+          ∧ (∀ k, 1 ≤ k → k ≤ kA → ∃ c, c < emb.length ∧ R l c = true ∧
+              (sortV (distRow m emb l))[k]? = some (rpEntry m emb l c))
+          ∧ ((∀ c, c < emb.length → c ≠ l →
+                leV (rpEntry m emb l c) (rpEntry m emb l l) = false) →
+              kA ≤ ((List.range emb.length).filter fun c => R l c && (c != l)).length)) := by
+  have hlen : (distRP m emb).length = emb.length := by simp [distRP, tab_length]
+  have hsq : ∀ row ∈ distRP m emb, row.length = (distRP m emb).length := by
+    intro row hrow
+    rw [hlen]
+    simp only [distRP, tab, List.mem_map, List.mem_range] at hrow
+    obtain ⟨i, _, rfl⟩ := hrow
+    simp
+  have hok := argsortOK_snOK _ sn hsn hsq
+  rw [hlen] at hok
+  have hord : (order.getD (List.range emb.length)).length = emb.length
+      ∧ ∀ l ∈ order.getD (List.range emb.length), l < emb.length := by
+    cases order with
+    | none => simp
+    | some o => simpa using ho o rfl
+  obtain ⟨R, hR⟩ := adaptive_total emb.length kA sn
+    (order.getD (List.range emb.length)) hok hord.2
+  refine ⟨R, ?_, by simp [bmTab, tab_length], adaptive_symm _ _ _ _ R hR, ?_⟩
+  · unfold adaptivePlotWith
+    simp only [hlen]
+    have h1 : ¬ ((order.getD (List.range emb.length)).length < emb.length ∧ 0 < kA) := by
+      rw [hord.1]; omega
+    rw [if_neg h1]
+    have h2 : (order.getD (List.range emb.length)).take emb.length
+        = order.getD (List.range emb.length) := by
+      rw [List.take_of_length_le (by rw [hord.1])]
+    rw [h2, hR]
+    rfl
+  · intro hk l hl
+    have hl' : l < emb.length := hord.2 l hl
+    obtain ⟨snl, hrow, harg⟩ := argsortOK_row _ sn hsn l (by omega)
+    rw [distRP_getElem] at harg
+    have hrl : (distRow m emb l).length = emb.length := by simp [distRow]
+    have hsl : snl.length = emb.length := by rw [isArgsortRow_length _ _ harg, hrl]
+    have hnd := isArgsortRow_nodup _ _ harg
+    have hlt : ∀ c ∈ snl, c < emb.length := fun c hc => by
+      have := isArgsortRow_lt _ _ harg c hc; omega
+    have hget : ∀ c, c < emb.length → (distRow m emb l).getD c none = rpEntry m emb l c := by
+      intro c hc
+      simp [distRow, List.getD_eq_getElem?_getD, hc]
+    refine ⟨adaptive_count_ge emb.length kA sn _ R hR l hl snl hrow hsl hnd hlt hk, ?_, ?_⟩
+    · intro k h1 h2
+      obtain ⟨snl', c, e1, e2, e3⟩ := adaptive_ge_k emb.length kA sn _ R hR l hl k h1 h2 (by omega)
+      rw [hrow] at e1
+      injection e1 with e1
+      subst e1
+      have hc : c < emb.length := hlt c (List.mem_of_getElem? e2)
+      refine ⟨c, hc, e3, ?_⟩
+      rw [isArgsortRow_getElem _ _ harg k c e2, hget c hc]
+    · intro hstrict
+      have h0 := isArgsortRow_self_first _ _ harg l (by omega)
+        (fun c hc hne => by
+          rw [hget c (by omega), hget l hl']
+          exact hstrict c (by omega) hne)
+      exact adaptive_count_ge_offdiag emb.length kA sn _ R hR l hl snl hrow hsl hnd hlt hk h0
+
+/-- non-vacuity: a row with a tie has two different argsorts, both accepted (NaN sorts last);
+a table that is not sorted, or not a permutation, is rejected -/
+example : isArgsortRow [some 0, some 1, some 1] [0, 1, 2] = true
+    ∧ isArgsortRow [some 0, some 1, some 1] [0, 2, 1] = true
+    ∧ isArgsortRow [some 0, none, some 2] [0, 2, 1] = true
+    ∧ isArgsortRow [some 0, some 1, some 2] [0, 2, 1] ≠ true
+    ∧ isArgsortRow [some 0, some 1, some 1] [0, 1, 1] ≠ true :=
+  ⟨isArgsortRow_of _ _ (by decide) (by decide +kernel),
+   isArgsortRow_of _ _ (by decide) (by decide +kernel),
+   isArgsortRow_of _ _ (by decide) (by decide +kernel),
+   fun h => absurd (isArgsortRow_sorted _ _ h) (by decide +kernel),
+   fun h => absurd (isArgsortRow_nodup _ _ h) (by decide)⟩
+
+/-- the "no duplicate of the state" hypothesis of the last clause cannot be dropped for an
+*arbitrary* argsort: three identical states, `kA = 1`, and a table that lists every state
+second in its own row give the identity matrix — every state has its one recurrence (itself)
+and no other neighbour (NumPy's sorts were never observed to produce such a table; the
+oracle demands `kA` other neighbours of the implementation) -/
+example : argsortOK (distRP .supremum [[some 1], [some 1], [some 1]])
+      [[1, 0, 2], [0, 1, 2], [0, 2, 1]] = true
+    ∧ (match adaptivePlotWith .supremum [[some 1], [some 1], [some 1]] 1 none
+        [[1, 0, 2], [0, 1, 2], [0, 2, 1]] with
+      | .ok p => p.R
+      | _ => [])
+      = [[true, false, false], [false, true, false], [false, false, true]] := by
+  refine ⟨?_, by decide +kernel⟩
+  have e : distRP .supremum [[some 1], [some 1], [some 1]]
+      = [[some 0, some 0, some 0], [some 0, some 0, some 0], [some 0, some 0, some 0]] := by
+    decide +kernel
+  rw [e]
+  simp only [argsortOK, List.zipWith, List.all, List.length, id, Bool.and_true,
+    Bool.and_eq_true, beq_iff_eq]
+  exact ⟨trivial, isArgsortRow_of _ _ (by decide) (by decide +kernel),
+    isArgsortRow_of _ _ (by decide) (by decide +kernel),
+    isArgsortRow_of _ _ (by decide) (by decide +kernel)⟩
+
+/-! ### round 5: adaptive neighbourhood size with `missing_values=True` (repair of round 5)
+
+Before the repair `set_adaptive_neighborhood_size` ignored `missing_values`: a state holding a
+missing value was linked like any other (all its distances NaN — or, for the supremum metric,
+computed from the remaining components, so that it became everybody's *nearest* neighbour and
+complete states were left with no other neighbour at all).  Now its rows and columns of the
+distance matrix are `+inf` before sorting and cleared in the result. -/
+
+/-- without `missing_values` the method is `adaptivePlotWith` (so `adaptive_plot_any_argsort`
+speaks about what the driver executes) -/
+theorem adaptive_plot_mv_off (m : Metric) (emb : List (List V)) (kA : Nat)
+    (order : Option (List Nat)) (sn : List (List Nat)) :
+    adaptivePlotMV m emb kA order sn false = adaptivePlotWith m emb kA order sn
+    ∧ adaptiveDist m emb false = distRP m emb := by
+  refine ⟨?_, rfl⟩
+  have hlen : (distRP m emb).length = emb.length := by simp [distRP, tab_length]
+  simp only [adaptivePlotMV, adaptivePlotWith, hlen, maskIf]
+  rfl
+
+/-- number of state vectors without a missing value -/
+def nComplete (emb : List (List V)) : Nat :=
+  (List.range emb.length).countP fun c => !missingAt emb c
+
+/-- row `l` of the matrix that is sorted, for a complete state `l` -/
+theorem adaptiveDist_row (m : Metric) (emb : List (List V)) (l : Nat)
+    (hl : l < (adaptiveDist m emb true).length) (hc : missingAt emb l = false) :
+    (adaptiveDist m emb true)[l]
+      = (List.range emb.length).map fun c => if missingAt emb c then none else rpEntry m emb l c := by
+  simp only [missingAt, List.getD_eq_getElem?_getD] at hc
+  simp [adaptiveDist, tab, missingAt, List.getD_eq_getElem?_getD, hc]
+
+/-- **`set_adaptive_neighborhood_size` with `missing_values=True`, for every argsort table of
+the sorted matrix**: the method returns, reports `N` = side of `R`, **no state holding a
+missing value is recurrent with anything**, and when `kA` is at most the number of *other*
+complete states every processed complete state `l` is recurrent — in the stored, masked
+matrix — with `kA` pairwise different complete states (so the states with missing values take
+nobody's place among the neighbours). -/
+theorem adaptive_plot_missing_values (m : Metric) (emb : List (List V)) (kA : Nat)
+    (order : Option (List Nat)) (sn : List (List Nat))
+    (hsn : argsortOK (adaptiveDist m emb true) sn = true)
+    (ho : ∀ o, order = some o → o.length = emb.length ∧ ∀ l ∈ o, l < emb.length) :
+    ∃ R : BM, adaptivePlotMV m emb kA order sn true
+        = .ok ⟨maskIf true emb (bmTab emb.length R), emb.length, emb.length⟩
+      ∧ (maskIf true emb (bmTab emb.length R)).length = emb.length
+      ∧ (∀ i j, missingAt emb i = true ∨ missingAt emb j = true →
+          entry (maskIf true emb (bmTab emb.length R)) i j = none
+          ∨ entry (maskIf true emb (bmTab emb.length R)) i j = some false)
+      ∧ (kA + 1 ≤ nComplete emb → ∀ l ∈ order.getD (List.range emb.length),
+          missingAt emb l = false →
+          ∃ cs : List Nat, cs.Nodup ∧ cs.length = kA ∧ ∀ c ∈ cs, c < emb.length
+            ∧ missingAt emb c = false
+            ∧ entry (maskIf true emb (bmTab emb.length R)) l c = some true) := by
+  have hlen : (adaptiveDist m emb true).length = emb.length := by
+    simp [adaptiveDist, tab_length]
+  have hsq : ∀ row ∈ adaptiveDist m emb true, row.length = (adaptiveDist m emb true).length := by
+    intro row hrow
+    rw [hlen]
+    simp only [adaptiveDist, if_true, tab, List.mem_map, List.mem_range] at hrow
+    obtain ⟨i, _, rfl⟩ := hrow
+    simp
+  have hok := argsortOK_snOK _ sn hsn hsq
+  rw [hlen] at hok
+  have hord : (order.getD (List.range emb.length)).length = emb.length
+      ∧ ∀ l ∈ order.getD (List.range emb.length), l < emb.length := by
+    cases order with
+    | none => simp
+    | some o => simpa using ho o rfl
+  obtain ⟨R, hR⟩ := adaptive_total emb.length kA sn
+    (order.getD (List.range emb.length)) hok hord.2
+  refine ⟨R, ?_, ?_, fun i j h => masked_never_recurrent emb _ i j h, ?_⟩
+  · unfold adaptivePlotMV
+    have h1 : ¬ ((order.getD (List.range emb.length)).length < emb.length ∧ 0 < kA) := by
+      rw [hord.1]; omega
+    simp only [if_neg h1]
+    have h2 : (order.getD (List.range emb.length)).take emb.length
+        = order.getD (List.range emb.length) := by
+      rw [List.take_of_length_le (by rw [hord.1])]
+    rw [h2, hR]
+    rfl
+  · simp [maskIf, applyMask, bmTab, tab_length]
+  · intro hk l hl hcl
+    have hl' : l < emb.length := hord.2 l hl
+    have hnc : nComplete emb ≤ emb.length := by
+      unfold nComplete
+      exact Nat.le_trans List.countP_le_length (by simp)
+    obtain ⟨snl, hrow, harg⟩ := argsortOK_row _ sn hsn l (by omega)
+    rw [adaptiveDist_row m emb l (by omega) hcl] at harg
+    generalize hr : ((List.range emb.length).map fun c =>
+      if missingAt emb c then none else rpEntry m emb l c) = r at harg
+    have hrl : r.length = emb.length := by rw [← hr]; simp
+    have hsl : snl.length = emb.length := by rw [isArgsortRow_length _ _ harg, hrl]
+    have hnd := isArgsortRow_nodup _ _ harg
+    have hlt : ∀ c ∈ snl, c < emb.length := fun c hc => by
+      have := isArgsortRow_lt _ _ harg c hc; omega
+    have hget : ∀ c, c < emb.length →
+        r.getD c none = if missingAt emb c then none else rpEntry m emb l c := by
+      intro c hc
+      rw [← hr]
+      simp [List.getD_eq_getElem?_getD, hc]
+    -- the number of numbers in the row is the number of complete states
+    have hcount : (sortV r).countP Option.isSome = nComplete emb := by
+      rw [(sortV_perm r).countP_eq, ← hr, List.countP_map]
+      unfold nComplete
+      apply List.countP_congr
+      intro c hc
+      have hc' : c < emb.length := List.mem_range.mp hc
+      simp only [Function.comp]
+      cases hm : missingAt emb c with
+      | true => simp
+      | false =>
+        have := rpEntry_isSome m emb l c hl' hc' (by simpa [missingAt] using hcl)
+          (by simpa [missingAt] using hm)
+        simp [this]
+    obtain ⟨hlenc, hset⟩ := adaptive_row_cols emb.length kA sn _ R hR l hl snl hrow hsl (by omega)
+    refine ⟨(snl.drop 1).take kA, dropTake_nodup snl kA hnd, hlenc, ?_⟩
+    intro c hc
+    have hcn : c < emb.length := hlt c (dropTake_mem snl kA c hc)
+    have hRc := hset c hc
+    -- position of `c` in the table row
+    rw [List.mem_take_iff_getElem] at hc
+    obtain ⟨i, hi, rfl⟩ := hc
+    have hi' : i < kA := by simp at hi; omega
+    have hpos : snl[1 + i]? = some ((snl.drop 1)[i]'(by simp at hi ⊢; omega)) := by
+      rw [List.getElem_drop, List.getElem?_eq_getElem]
+    have hsorted := isArgsortRow_getElem _ _ harg (1 + i) _ hpos
+    obtain ⟨x, hx⟩ := sorted_isSome_of_lt_countP (sortV r) (sortV_pairwise r) (1 + i)
+      (by rw [hcount]; omega)
+    rw [hsorted] at hx
+    injection hx with hx
+    rw [hget _ hcn] at hx
+    have hcc : missingAt emb ((snl.drop 1)[i]'(by simp at hi ⊢; omega)) = false := by
+      cases hm : missingAt emb ((snl.drop 1)[i]'(by simp at hi ⊢; omega)) with
+      | true => rw [hm] at hx; simp at hx
+      | false => rfl
+    refine ⟨hcn, hcc, ?_⟩
+    rw [masked_keeps_complete emb _ l _ hcl hcc, bmTab, entry_tab, if_pos ⟨hl', hcn⟩, hRc]
+
+/-- non-vacuity, and the defect that was repaired: `[0, nan, 1, 3]`, supremum metric, `kA = 1`.
+Without the `+inf` rows the NaN state (distance 0 to everybody: its only component is skipped)
+may sort first in every row: states 2 and 3 are then linked to *themselves* only and state 0 to
+the NaN state — no complete state has a complete neighbour.  With them every complete state
+has a complete neighbour and state 1 none. -/
+example :
+    nComplete [[some 0], [none], [some 1], [some 3]] = 3
+    ∧ argsortOK (adaptiveDist .supremum [[some 0], [none], [some 1], [some 3]] true)
+        [[0, 2, 3, 1], [0, 1, 2, 3], [2, 0, 3, 1], [3, 2, 0, 1]] = true
+    ∧ (match adaptivePlotMV .supremum [[some 0], [none], [some 1], [some 3]] 1 none
+          [[0, 2, 3, 1], [0, 1, 2, 3], [2, 0, 3, 1], [3, 2, 0, 1]] true with
+        | .ok p => p.R | _ => [])
+      = [[false, false, true, true], [false, false, false, false],
+         [true, false, false, true], [true, false, true, false]]
+    ∧ (match adaptivePlotWith .supremum [[some 0], [none], [some 1], [some 3]] 1 none
+          [[1, 0, 2, 3], [1, 0, 2, 3], [1, 2, 0, 3], [1, 3, 2, 0]] with
+        | .ok p => p.R | _ => [])
+      = [[true, true, false, false], [true, false, false, false],
+         [false, false, true, false], [false, false, false, true]] := by
+  refine ⟨by decide +kernel, ?_, by decide +kernel, by decide +kernel⟩
+  have e : adaptiveDist .supremum [[some 0], [none], [some 1], [some 3]] true
+      = [[some 0, none, some 1, some 3], [none, none, none, none],
+         [some 1, none, some 0, some 2], [some 3, none, some 2, some 0]] := by
+    decide +kernel
+  rw [e]
+  simp only [argsortOK, List.zipWith, List.all, List.length, id, Bool.and_true,
+    Bool.and_eq_true, beq_iff_eq]
+  exact ⟨trivial, isArgsortRow_of _ _ (by decide) (by decide +kernel),
+    isArgsortRow_of _ _ (by decide) (by decide +kernel),
+    isArgsortRow_of _ _ (by decide) (by decide +kernel),
+    isArgsortRow_of _ _ (by decide) (by decide +kernel)⟩
 
 /-! ### `threshold_std`: the threshold is `s·σ` of the stored series -/
 
